@@ -150,7 +150,7 @@ func (Engine) Gen(seed uint64, idx int, tier string) interface{} {
 	if r.Chance(1, 10) {
 		nt = 1
 	}
-	big := tier == "thorough" && r.Chance(1, 3)
+	big := (tier == "thorough" && r.Chance(1, 3)) || r.Chance(1, 15)
 	if big {
 		nt = 4 + r.Intn(3)
 	}
@@ -158,7 +158,7 @@ func (Engine) Gen(seed uint64, idx int, tier string) interface{} {
 	closes := 0
 	kinds := []string{"run", "run", "run", "modinit", "modsrc", "regmod", "resolve", "runfile", "close", "close", "modsrc-bad", "modbuf-bad", "modbuf-notcode", "call", "call", "goimport"}
 	inners := []string{"exec-code", "exec-code", "eval-code", "exec-src", "eval-src", "import:simcb0", "import:simcb1", "import:simcb2", "import:srca", "import:srcb", "import:nosuch", "dunder-import:simcb1"}
-	nests := []string{"", "", "cb:0", "cb:1", "cb:2", "src:srca", "src:srcb", "exec", "raise", "badsrc", "src:nosuch", "panicimport"}
+	nests := []string{"", "", "cb:0", "cb:1", "cb:2", "src:srca", "src:srcb", "exec", "raise", "badsrc", "src:nosuch", "panicimport", "deepexec"}
 	for t := 0; t < nt; t++ {
 		var ts TaskSpec
 		no := 1 + r.Intn(3)
@@ -365,6 +365,9 @@ func bodySrc(op Op) string {
 		fmt.Fprintf(&b, "    import %s\n", op.Nested[4:])
 	case op.Nested == "exec":
 		b.WriteString("    exec('y = 2')\n")
+	case op.Nested == "deepexec":
+		// executions nested far deeper than any small bound on the in-flight count
+		fmt.Fprintf(&b, "    def _deep(n):\n        if n > 0:\n            exec(\"_deep(\" + str(n - 1) + \")\")\n    try:\n        _deep(%d)\n    except Exception:\n        pass\n", []int{3, 40, 270, 300}[op.ID%4])
 	case op.Nested == "raise":
 		b.WriteString("    raise ValueError('boom')\n")
 	case op.Nested == "badsrc":
@@ -536,7 +539,7 @@ func (e Engine) Exec(sci interface{}, opt harness.ExecOpts) *harness.Outcome {
 	} else {
 		sched = mkSched(sc, len(sc.Tasks))
 	}
-	sim := simrt.New(simrt.Config{MaxSteps: 60000, Sched: sched, Order: sc.Order, KeepLog: opt.KeepLog,
+	sim := simrt.New(simrt.Config{MaxSteps: 400000, Sched: sched, Order: sc.Order, KeepLog: opt.KeepLog,
 		OnStep: func(*simrt.Sim) { r.observe() }})
 
 	type reqResult struct {
@@ -648,7 +651,7 @@ func (e Engine) Exec(sci interface{}, opt harness.ExecOpts) *harness.Outcome {
 		out.Violate("I2-deadlock", "deadlock", "deadlock: %s", strings.Join(res.DeadlockAt, "; "))
 	}
 	if res.Capped {
-		out.Violate("I2-no-quiescence", "capped", "run did not quiesce within 60000 steps")
+		out.Violate("I2-no-quiescence", "capped", "run did not quiesce within 400000 steps")
 	}
 	hasPanicImport := false
 	for _, t := range sc.Tasks {
